@@ -159,3 +159,21 @@ Theorem C20_tolerance_sign_spec : forall mant ex : Z,
   (CliModel.tol_sign (mant, ex) = 0 \/ CliModel.tol_sign (mant, ex) = 1 \/ CliModel.tol_sign (mant, ex) = -1).
 Proof. exact CliProofs.tol_sign_spec. Qed.
 Print Assumptions C20_tolerance_sign_spec.
+
+(* ---------- the judge accepts EXACTLY the records that satisfy its specification: besides soundness (above) also completeness,
+   i.e. a record of a correct answer is never rejected (JudgeComplete2.v) ---------- *)
+From Cmr Require JudgeComplete2.
+Theorem C20_judge_textread_accepts_exactly_the_specification :
+    forall (rec : list Z) (fmt ty : Z) (bytes : list Z) (rc : Z) (res : option (nat * nat * mat))
+    (rest : list Z),
+    TextProofs.textread_input rec = Some (fmt, ty, bytes, rc, res, rest) ->
+    TextModel.judge_textread rec = 0%Z <-> JudgeComplete2.textread_spec fmt ty bytes rc res.
+Proof. exact JudgeComplete2.judge_textread_iff. Qed.
+Print Assumptions C20_judge_textread_accepts_exactly_the_specification.
+Theorem C20_judge_textwrite_accepts_exactly_the_specification :
+    forall (rec : list Z) (fmt ty : Z) (m n : nat) (M : mat) (bytes : list Z) 
+    (rc2 : Z) (res : option (nat * nat * mat)) (rest : list Z),
+    TextProofs.textwrite_input rec = Some (fmt, ty, (m, n, M), bytes, rc2, res, rest) ->
+    TextModel.judge_textwrite rec = 0%Z <-> JudgeComplete2.textwrite_spec fmt ty m n M bytes rc2 res.
+Proof. exact JudgeComplete2.judge_textwrite_iff. Qed.
+Print Assumptions C20_judge_textwrite_accepts_exactly_the_specification.
